@@ -316,6 +316,44 @@ func (s *Sim) PeerUpWith(name string, setup func(*Peer)) *Peer {
 	return p
 }
 
+// PeerUpLink registers a further convergence layer (another address, e.g. a second CLA type) towards a neighbour that
+// is already connected: same peer endpoint ID, own address. Its transmissions are recorded under the peer's name.
+func (s *Sim) PeerUpLink(name string, link int, setup func(*Peer)) *Peer {
+	s.Step("peer_link_up", fmt.Sprintf("%s link %d", name, link))
+	peerSerial++
+	p := &Peer{
+		sim: s, Name: name, EID: bpv7.MustNewEndpointID("dtn://" + name + "/"),
+		addr: fmt.Sprintf("mock%d://%s#%d", link, name, peerSerial),
+		ch:   make(chan cla.ConvergenceStatus, 64),
+	}
+	if setup != nil {
+		setup(p)
+	}
+	s.mu.Lock()
+	s.peers[fmt.Sprintf("%s~%d", name, link)] = p
+	s.mu.Unlock()
+	s.Core.RegisterConvergable(p)
+	p.mu.Lock()
+	p.up = true
+	p.mu.Unlock()
+	p.ch <- cla.NewConvergencePeerAppeared(p, p.EID)
+	settle()
+	return p
+}
+
+// Links returns the further links towards a neighbour (see PeerUpLink).
+func (s *Sim) Links(name string) []*Peer {
+	s.mu.Lock()
+	defer s.mu.Unlock()
+	var out []*Peer
+	for k, p := range s.peers {
+		if strings.HasPrefix(k, name+"~") {
+			out = append(out, p)
+		}
+	}
+	return out
+}
+
 // PeerUpNoWait is PeerUp without waiting for quiescence (for coincidence workloads).
 func (s *Sim) PeerUpNoWait(name string) *Peer {
 	s.Step("peer_up", name)
@@ -349,7 +387,7 @@ func (s *Sim) PeersUp() []string {
 	defer s.mu.Unlock()
 	var out []string
 	for n, p := range s.peers {
-		if p.up {
+		if p.up && !strings.Contains(n, "~") {
 			out = append(out, n)
 		}
 	}
@@ -363,7 +401,22 @@ func (s *Sim) PeerDown(name string) {
 	s.mu.Lock()
 	p := s.peers[name]
 	delete(s.peers, name)
+	var links []*Peer
+	for k, l := range s.peers {
+		if strings.HasPrefix(k, name+"~") {
+			links = append(links, l)
+			delete(s.peers, k)
+		}
+	}
 	s.mu.Unlock()
+	for _, l := range links {
+		l.mu.Lock()
+		l.gone, l.up = true, false
+		ch := l.ch
+		l.mu.Unlock()
+		ch <- cla.NewConvergencePeerDisappeared(l, l.EID)
+		settle()
+	}
 	if p == nil {
 		return
 	}
